@@ -44,6 +44,7 @@ for it in range(N):
     except Exception as e:
         bad("sizing-search-raised-on-ordinary-numbers", error=repr(e)[:120], price=price, multiplier=mult, spread=spread, fee=fk, integer=intpos, position=p0, amount=amount); continue
     s.update(idx[0])
+    if PARAMS.get("only_raises"): continue      # C10 asks only whether a well-formed allocation completes; the budget clauses are C05's
     q = a.position - p0
     spent = cap0 - s.capital        # outlay + fee actually paid
     true_closeout = abs(amount + p0 * unit) <= 1e-9 * max(1.0, abs(amount))     # allocating exactly minus the current value
